@@ -4,7 +4,7 @@
 //! (or names a thread that is not waiting) the lowest-numbered waiting thread runs. The sequence of
 //! (thread, site) announcements is a total order of the run.
 use std::cell::Cell;
-use std::collections::{BTreeSet, VecDeque};
+use std::collections::{BTreeMap, BTreeSet, HashMap, VecDeque};
 use std::sync::{Condvar, Mutex, OnceLock};
 use std::time::Duration;
 
@@ -17,8 +17,14 @@ struct State {
     active: bool,
     schedule: VecDeque<u64>,
     managed: BTreeSet<u64>,   // started and not finished
-    waiting: BTreeSet<u64>,
+    waiting: BTreeMap<u64, String>, // thread -> the site it announced and waits at
     current: Option<u64>,
+    readers: HashMap<String, usize>, // lock name -> read holders (locks announced with `lock:<name>:R+` ...)
+    writer: HashMap<String, bool>,
+    deadlocked: bool,
+    trust_locks: bool,            // use the lock notes to keep a thread from being released into a lock it cannot get
+    blocked: BTreeSet<u64>,       // released threads that did not reach their next point in time: blocked on a real lock
+    granted_at: Option<std::time::Instant>,
     log: Vec<(u64, String)>,
     expected: usize,          // threads that will join
     joined: usize,
@@ -34,28 +40,78 @@ fn sched() -> &'static Sched {
     S.get_or_init(|| Sched { st: Mutex::new(State::default()), cv: Condvar::new() })
 }
 
+/// `lock:<name>:R+` -> Some((name, "R+"))
+fn lock_site(site: &str) -> Option<(&str, &str)> {
+    let rest = site.strip_prefix("lock:")?;
+    let i = rest.rfind(':')?;
+    Some((&rest[..i], &rest[i + 1..]))
+}
+
+fn eligible(st: &State, t: u64) -> bool {
+    if !st.trust_locks {
+        return true;
+    }
+    match st.waiting.get(&t).and_then(|s| lock_site(s)) {
+        Some((name, "W+")) => st.readers.get(name).copied().unwrap_or(0) == 0 && !st.writer.get(name).copied().unwrap_or(false),
+        Some((name, "R+")) => !st.writer.get(name).copied().unwrap_or(false),
+        _ => true,
+    }
+}
+
+fn grant(st: &mut State, t: u64) {
+    // a thread released at a lock-acquisition point takes the lock right away
+    if let Some(site) = st.waiting.get(&t).cloned() {
+        match lock_site(&site) {
+            Some((name, "W+")) => {
+                st.writer.insert(name.to_string(), true);
+            }
+            Some((name, "R+")) => {
+                *st.readers.entry(name.to_string()).or_insert(0) += 1;
+            }
+            _ => {}
+        }
+    }
+    st.current = Some(t);
+    st.granted_at = Some(std::time::Instant::now());
+}
+
 fn pick(st: &mut State) {
     if st.current.is_some() || st.joined < st.expected {
         return;
     }
     // everybody who is still running is waiting at a point?
-    if st.waiting.len() != st.managed.len() || st.waiting.is_empty() {
+    if st.waiting.len() + st.blocked.len() != st.managed.len() || st.waiting.is_empty() {
         return;
     }
     while let Some(t) = st.schedule.pop_front() {
-        if st.waiting.contains(&t) {
-            st.current = Some(t);
+        if st.waiting.contains_key(&t) && eligible(st, t) {
+            grant(st, t);
             return;
         }
     }
-    st.current = st.waiting.iter().next().copied();
+    let next = st.waiting.keys().copied().find(|t| eligible(st, *t));
+    match next {
+        Some(t) => grant(st, t),
+        None => {
+            // every thread waits for a lock somebody else (also waiting) holds: a real deadlock
+            st.deadlocked = true;
+            st.active = false;
+        }
+    }
 }
 
 /// Start a scheduled section with `n` managed threads and the given schedule.
 pub fn begin(n: usize, schedule: &[u64]) {
+    begin_with(n, schedule, true)
+}
+
+/// `trust_locks = false`: lock notes are ignored; a released thread that blocks on a real lock is
+/// detected by time-out (25 ms without reaching a point) and another thread is released meanwhile.
+pub fn begin_with(n: usize, schedule: &[u64], trust_locks: bool) {
     let s = sched();
     let mut st = s.st.lock().unwrap();
     *st = State::default();
+    st.trust_locks = trust_locks;
     st.active = true;
     st.expected = n;
     st.schedule = schedule.iter().copied().collect();
@@ -85,7 +141,18 @@ pub fn point(site: &str) {
         return;
     }
     st.log.push((t, site.to_string()));
-    st.waiting.insert(t);
+    match lock_site(site) {
+        Some((name, "W-")) => {
+            st.writer.insert(name.to_string(), false);
+        }
+        Some((name, "R-")) => {
+            let r = st.readers.entry(name.to_string()).or_insert(0);
+            *r = r.saturating_sub(1);
+        }
+        _ => {}
+    }
+    st.waiting.insert(t, site.to_string());
+    st.blocked.remove(&t);
     if st.current == Some(t) {
         st.current = None;
     }
@@ -93,13 +160,22 @@ pub fn point(site: &str) {
     s.cv.notify_all();
     let mut waited = 0u32;
     while st.current != Some(t) {
-        let (g, to) = s.cv.wait_timeout(st, Duration::from_millis(50)).unwrap();
+        let (g, to) = s.cv.wait_timeout(st, Duration::from_millis(10)).unwrap();
         st = g;
+        // the released thread has not come back: it sits in a real lock - let somebody else run
+        if let (Some(c), Some(at)) = (st.current, st.granted_at) {
+            if c != t && at.elapsed() > Duration::from_millis(25) && !st.waiting.contains_key(&c) && st.managed.contains(&c) {
+                st.blocked.insert(c);
+                st.current = None;
+                pick(&mut st);
+                s.cv.notify_all();
+            }
+        }
         if to.timed_out() {
             waited += 1;
             pick(&mut st);
             s.cv.notify_all();
-            if waited > 100 {
+            if waited > 500 {
                 // 5 s without a grant: the current thread is blocked outside a point (e.g. on a real lock)
                 st.stalled = true;
                 st.active = false;
@@ -122,6 +198,7 @@ pub fn leave() {
     let mut st = s.st.lock().unwrap();
     st.managed.remove(&t);
     st.waiting.remove(&t);
+    st.blocked.remove(&t);
     if st.current == Some(t) {
         st.current = None;
     }
@@ -130,11 +207,14 @@ pub fn leave() {
     s.cv.notify_all();
 }
 
-/// End the section: returns the announcement log and whether the run stalled.
+/// End the section: returns the announcement log and whether the run stalled or deadlocked.
 pub fn end() -> (Vec<(u64, String)>, bool) {
     let s = sched();
     let mut st = s.st.lock().unwrap();
     st.active = false;
     s.cv.notify_all();
-    (std::mem::take(&mut st.log), st.stalled)
+    (std::mem::take(&mut st.log), st.stalled || st.deadlocked)
+}
+pub fn deadlocked() -> bool {
+    sched().st.lock().unwrap().deadlocked
 }
